@@ -306,6 +306,25 @@ structure IdsC (cfg : Cfg) (ls : List Lend) (bs : List Borrow) (ss : List Stats)
   la : Asc (ls.map (·.id))
   ba : Asc (bs.map (·.id))
   ok : IdsL cfg ls bs ss
+  /-- every lend position has the record of its pool and asset -/
+  lr : ∀ l ∈ ls, ∃ st ∈ ss, st.pool = l.pool ∧ st.asset = l.asset
+  /-- every borrow has the record of its pair's out pool and asset -/
+  br : ∀ b ∈ bs, ∃ p a, cfg.pairOut b.pairId = some (p, a) ∧ ∃ st ∈ ss, st.pool = p ∧ st.asset = a
+
+theorem rec_mod {ss : List Stats} (p a : Nat) {f : Stats → Stats} (hk : ∀ st, (f st).pool = st.pool ∧ (f st).asset = st.asset) {P A : Nat}
+    (h : ∃ st ∈ ss, st.pool = P ∧ st.asset = A) : ∃ st ∈ modStats ss p a f, st.pool = P ∧ st.asset = A := by
+  obtain ⟨st, hst, h1, h2⟩ := h
+  refine ⟨if st.pool = p ∧ st.asset = a then f st else st, ?_, ?_⟩
+  · unfold modStats; exact List.mem_map.mpr ⟨st, hst, rfl⟩
+  · by_cases hc : st.pool = p ∧ st.asset = a
+    · rw [if_pos hc, (hk st).1, (hk st).2]; exact ⟨h1, h2⟩
+    · rw [if_neg hc]; exact ⟨h1, h2⟩
+
+theorem getStats_mem {ss : List Stats} {p a : Nat} {st : Stats} (h : getStats ss p a = some st) : st ∈ ss ∧ st.pool = p ∧ st.asset = a := by
+  unfold getStats at h
+  have h1 := List.find?_some h
+  simp only [Bool.and_eq_true, beq_iff_eq] at h1
+  exact ⟨List.mem_of_find?_eq_some h, h1.1, h1.2⟩
 
 /-- a stats modifier that keeps the key and both id lists (the totals updates) -/
 def KeepIds (f : Stats → Stats) : Prop := ∀ st, (f st).pool = st.pool ∧ (f st).asset = st.asset ∧ (f st).lendIds = st.lendIds ∧ (f st).borrowIds = st.borrowIds
@@ -315,7 +334,9 @@ variable {cfg : Cfg} {ls : List Lend} {bs : List Borrow} {ss : List Stats}
 
 /-- I1: a totals update -/
 theorem ids_stats (h : IdsC cfg ls bs ss) (p a : Nat) {f : Stats → Stats} (hf : KeepIds f) : IdsC cfg ls bs (modStats ss p a f) := by
-  refine { h with ok := ?_ }
+  have hk : ∀ st, (f st).pool = st.pool ∧ (f st).asset = st.asset := fun st => ⟨(hf st).1, (hf st).2.1⟩
+  refine { h with ok := ?_, lr := fun l hl => rec_mod p a hk (h.lr l hl),
+                  br := fun b hb => by obtain ⟨P, A, e, r⟩ := h.br b hb; exact ⟨P, A, e, rec_mod p a hk r⟩ }
   intro st hst
   obtain ⟨s0, hs0, rfl⟩ := mem_modStats hst
   have := h.ok s0 hs0
@@ -336,26 +357,41 @@ theorem ids_addBorrowed (h : IdsC cfg ls bs ss) (p a : Nat) (sb : Bool) (d : Int
 theorem ids_setLend (h : IdsC cfg ls bs ss) {l l' : Lend} (hg : getLend ls l.id = some l) (hid : l'.id = l.id)
     (hp : l'.pool = l.pool) (ha : l'.asset = l.asset) : IdsC cfg (setLend ls l') bs ss := by
   have hu : Uniq lid ls := asc_uniq (fun l : Lend => l.id) h.la
-  refine { la := by rw [setLend_ids]; exact h.la, ba := h.ba, ok := ?_ }
-  intro st hst
-  rw [lendIdsOf_set ls l l' hu hg hid hp ha]
-  exact h.ok st hst
+  refine { la := by rw [setLend_ids]; exact h.la, ba := h.ba, ok := ?_, lr := ?_, br := h.br }
+  · intro st hst
+    rw [lendIdsOf_set ls l l' hu hg hid hp ha]
+    exact h.ok st hst
+  · intro x hx
+    rcases mem_put lid ls l' x hx with rfl | ⟨hx', _⟩
+    · rw [hp, ha]; exact h.lr l (getLend_mem hg).1
+    · exact h.lr x hx'
 
 /-- I3: a borrow record is replaced (same id, pair) -/
 theorem ids_setBorrow (h : IdsC cfg ls bs ss) {b b' : Borrow} (hg : getBorrow bs b.id = some b) (hid : b'.id = b.id)
     (hp : b'.pairId = b.pairId) : IdsC cfg ls (setBorrow bs b') ss := by
   have hu : Uniq bid bs := asc_uniq (fun b : Borrow => b.id) h.ba
-  refine { la := h.la, ba := by rw [setBorrow_ids]; exact h.ba, ok := ?_ }
-  intro st hst
-  rw [borrowIdsOf_set cfg bs b b' hu hg hid hp]
-  exact h.ok st hst
+  refine { la := h.la, ba := by rw [setBorrow_ids]; exact h.ba, ok := ?_, lr := h.lr, br := ?_ }
+  · intro st hst
+    rw [borrowIdsOf_set cfg bs b b' hu hg hid hp]
+    exact h.ok st hst
+  · intro x hx
+    rcases mem_put bid bs b' x hx with rfl | ⟨hx', _⟩
+    · rw [hp]; exact h.br b (getBorrow_mem hg).1
+    · exact h.br x hx'
 
 /-- I4: a fresh lend position, its id appended to the list of its pool and asset -/
-theorem ids_lendNew (h : IdsC cfg ls bs ss) (l : Lend) (hid : ∀ x ∈ ls, x.id < l.id) :
+theorem ids_lendNew (h : IdsC cfg ls bs ss) (l : Lend) (hid : ∀ x ∈ ls, x.id < l.id) (hr : ∃ st ∈ ss, st.pool = l.pool ∧ st.asset = l.asset) :
     IdsC cfg (ls ++ [l]) bs (addLendId ss l.pool l.asset l.id) := by
-  refine { la := ?_, ba := h.ba, ok := ?_ }
+  have hk : ∀ st : Stats, ({ st with lendIds := st.lendIds ++ [l.id] } : Stats).pool = st.pool ∧
+      ({ st with lendIds := st.lendIds ++ [l.id] } : Stats).asset = st.asset := fun _ => ⟨rfl, rfl⟩
+  refine { la := ?_, ba := h.ba, ok := ?_, lr := ?_, br := fun b hb => by obtain ⟨P, A, e, r⟩ := h.br b hb; exact ⟨P, A, e, rec_mod _ _ hk r⟩ }
   · rw [List.map_append]
     exact asc_append h.la l.id (fun x hx => by obtain ⟨y, hy, rfl⟩ := List.mem_map.mp hx; exact hid y hy)
+  rotate_left
+  · intro x hx
+    rcases List.mem_append.mp hx with hx | hx
+    · exact rec_mod _ _ hk (h.lr x hx)
+    · simp at hx; subst hx; exact rec_mod _ _ hk hr
   · intro st hst
     obtain ⟨s0, hs0, rfl⟩ := mem_modStats hst
     obtain ⟨h1, h2⟩ := h.ok s0 hs0
@@ -375,7 +411,10 @@ theorem ids_lendDel (h : IdsC cfg ls bs ss) {l : Lend} (hg : getLend ls l.id = s
     IdsC cfg (delLend ls l.id) bs (delLendId ss l.pool l.asset l.id) := by
   have hu : Uniq lid ls := asc_uniq (fun l : Lend => l.id) h.la
   obtain ⟨hm, _⟩ := getLend_mem hg
-  refine { la := ?_, ba := h.ba, ok := ?_ }
+  have hk : ∀ st : Stats, ({ st with lendIds := delId st.lendIds l.id } : Stats).pool = st.pool ∧
+      ({ st with lendIds := delId st.lendIds l.id } : Stats).asset = st.asset := fun _ => ⟨rfl, rfl⟩
+  refine { la := ?_, ba := h.ba, ok := ?_, lr := fun x hx => rec_mod _ _ hk (h.lr x (mem_del lid ls l.id x hx).1),
+           br := fun b hb => by obtain ⟨P, A, e, r⟩ := h.br b hb; exact ⟨P, A, e, rec_mod _ _ hk r⟩ }
   · have : (delLend ls l.id).map (·.id) = (ls.map (·.id)).filter (· != l.id) := by
       unfold delLend; exact map_filter_comm (fun l : Lend => l.id) (· != l.id) ls
     rw [this]; exact asc_filter h.la _
@@ -399,11 +438,18 @@ theorem ids_lendDel (h : IdsC cfg ls bs ss) {l : Lend} (hg : getLend ls l.id = s
       exact hc ⟨hxp.symm, hxa.symm⟩
 
 /-- I6: a fresh borrow, its id appended to the list of the pair's out pool and asset -/
-theorem ids_borrowNew (h : IdsC cfg ls bs ss) (b : Borrow) {p a : Nat} (hp : cfg.pairOut b.pairId = some (p, a)) (hid : ∀ x ∈ bs, x.id < b.id) :
-    IdsC cfg ls (bs ++ [b]) (addBorrowId ss p a b.id) := by
-  refine { la := h.la, ba := ?_, ok := ?_ }
+theorem ids_borrowNew (h : IdsC cfg ls bs ss) (b : Borrow) {p a : Nat} (hp : cfg.pairOut b.pairId = some (p, a)) (hid : ∀ x ∈ bs, x.id < b.id)
+    (hr : ∃ st ∈ ss, st.pool = p ∧ st.asset = a) : IdsC cfg ls (bs ++ [b]) (addBorrowId ss p a b.id) := by
+  have hk : ∀ st : Stats, ({ st with borrowIds := st.borrowIds ++ [b.id] } : Stats).pool = st.pool ∧
+      ({ st with borrowIds := st.borrowIds ++ [b.id] } : Stats).asset = st.asset := fun _ => ⟨rfl, rfl⟩
+  refine { la := h.la, ba := ?_, ok := ?_, lr := fun x hx => rec_mod _ _ hk (h.lr x hx), br := ?_ }
   · rw [List.map_append]
     exact asc_append h.ba b.id (fun x hx => by obtain ⟨y, hy, rfl⟩ := List.mem_map.mp hx; exact hid y hy)
+  rotate_left
+  · intro x hx
+    rcases List.mem_append.mp hx with hx | hx
+    · obtain ⟨P, A, e, r⟩ := h.br x hx; exact ⟨P, A, e, rec_mod _ _ hk r⟩
+    · simp at hx; subst hx; exact ⟨p, a, hp, rec_mod _ _ hk hr⟩
   · intro st hst
     obtain ⟨s0, hs0, rfl⟩ := mem_modStats hst
     obtain ⟨h1, h2⟩ := h.ok s0 hs0
@@ -424,7 +470,10 @@ theorem ids_borrowDel (h : IdsC cfg ls bs ss) {b : Borrow} {p a : Nat} (hg : get
     IdsC cfg ls (delBorrow bs b.id) (delBorrowId ss p a b.id) := by
   have hu : Uniq bid bs := asc_uniq (fun b : Borrow => b.id) h.ba
   obtain ⟨hm, _⟩ := getBorrow_mem hg
-  refine { la := h.la, ba := ?_, ok := ?_ }
+  have hk : ∀ st : Stats, ({ st with borrowIds := delId st.borrowIds b.id } : Stats).pool = st.pool ∧
+      ({ st with borrowIds := delId st.borrowIds b.id } : Stats).asset = st.asset := fun _ => ⟨rfl, rfl⟩
+  refine { la := h.la, ba := ?_, ok := ?_, lr := fun x hx => rec_mod _ _ hk (h.lr x hx),
+           br := fun x hx => by obtain ⟨P, A, e, r⟩ := h.br x (mem_del bid bs b.id x hx).1; exact ⟨P, A, e, rec_mod _ _ hk r⟩ }
   · have : (delBorrow bs b.id).map (·.id) = (bs.map (·.id)).filter (· != b.id) := by
       unfold delBorrow; exact map_filter_comm (fun b : Borrow => b.id) (· != b.id) bs
     rw [this]; exact asc_filter h.ba _
@@ -477,8 +526,9 @@ theorem lendNew_ids {cfg : Cfg} {s s' : State} {u a : Nat} {amt : Int} {pool : P
     (c : CoreS cfg s) (i : IdsS cfg s) : IdsS cfg s' := by
   unfold lendNew at h
   invert h
+  have hst := getStats_mem ‹getStats s.stats pool.id a = some _›
   exact ids_lendNew (ids_addTotalLend i _ _ _) { id := s.lendCtr + 1, owner := u, pool := pool.id, asset := a, amountIn := amt, avail := amt, app := app }
-    (lt_of_ll c)
+    (lt_of_ll c) (by unfold addTotalLend; refine rec_mod _ _ ?_ ⟨_, hst.1, hst.2.1, hst.2.2⟩; intro _; exact ⟨rfl, rfl⟩)
 
 theorem lend_ids {cfg : Cfg} {s s' : State} {u a d : Nat} {amt : Int} {p app : Nat} {r : Int} (h : lend cfg s u a d amt p app r = .ok s')
     (c : CoreS cfg s) (i : IdsS cfg s) : IdsS cfg s' := by
@@ -536,19 +586,22 @@ theorem depositBorrow_ids {cfg : Cfg} {s s' : State} {u k d : Nat} {x : Int} {ex
 
 theorem openBorrow_ids {cfg : Cfg} {s : State} {l : Lend} {pair : PairCfg} {stable : Bool} {dIn : Nat} {aIn : Int} {dOut : Nat} {aOut : Int}
     {brd : Nat} {br : Int} {bank : Bank} (hgl : getLend s.lends l.id = some l) (hp : cfg.pair? pair.id = some pair)
+    {st0 : Stats} (hst : getStats s.stats pair.outPool pair.assetOut = some st0)
     (c : CoreS cfg s) (i : IdsS cfg s) : IdsS cfg (openBorrow s l pair stable dIn aIn dOut aOut brd br bank) := by
   unfold openBorrow
+  have hm := getStats_mem hst
   exact ids_borrowNew (ids_addBorrowed (ids_setLend i hgl (by rfl) (by rfl) (by rfl)) _ _ _ _)
     { id := s.borrowCtr + 1, lendingId := l.id, pairId := pair.id, inDenom := dIn, amountIn := aIn, outDenom := dOut, amountOut := aOut,
       interest := 0, stable := stable, liq := false, brDenom := brd, bridged := br, reserveInt := 0 }
     (pairOut_of_pair hp) (lt_of_bl c)
+    (by unfold addBorrowed; refine rec_mod _ _ ?_ ⟨_, hm.1, hm.2.1, hm.2.2⟩; intro _; cases stable <;> exact ⟨rfl, rfl⟩)
 
 theorem borrowNew_ids {cfg : Cfg} {s s' : State} {u : Nat} {l : Lend} {pair : PairCfg} {rates : RatesCfg} {stable : Bool} {dIn : Nat} {aIn : Int}
     {dOut : Nat} {aOut : Int} (hgl : getLend s.lends l.id = some l) (hp : cfg.pair? pair.id = some pair)
     (h : borrowNew cfg s u l pair rates stable dIn aIn dOut aOut = .ok s') (c : CoreS cfg s) (i : IdsS cfg s) : IdsS cfg s' := by
   unfold borrowNew at h
   invert h
-  all_goals exact openBorrow_ids hgl hp c i
+  all_goals exact openBorrow_ids hgl hp ‹getStats s.stats pair.outPool pair.assetOut = some _› c i
 
 theorem borrow_ids {cfg : Cfg} {s s' : State} {u k pid : Nat} {stable : Bool} {dIn : Nat} {aIn : Int} {dOut : Nat} {aOut : Int} {e1 e2 : ExtB}
     (h : borrow cfg s u k pid stable dIn aIn dOut aOut e1 e2 = .ok s') (c : CoreS cfg s) (i : IdsS cfg s) : IdsS cfg s' := by
